@@ -356,7 +356,13 @@ impl Walrus {
                 let md: Metadata = match decode_metadata(&aligned[..]) {
                     Some(m) => m,
                     None => {
-                        break;
+                        // A first header that does not decode is a write that was cut
+                        // short. Blocks handed out later (to other topics) may already
+                        // hold acknowledged entries, so skip this unit, keep its id and
+                        // go on scanning.
+                        block_offset += DEFAULT_BLOCK_SIZE;
+                        next_block_id += 1;
+                        continue;
                     }
                 };
                 let col_name = md.owned_by;
@@ -405,7 +411,11 @@ impl Walrus {
                     }
                 }
                 if used == 0 {
-                    break;
+                    // The first entry is incomplete (torn write). Same as above: the
+                    // block holds nothing, later blocks still count.
+                    block_offset += block_limit;
+                    next_block_id += 1;
+                    continue;
                 }
 
                 let block = Block {
